@@ -53,6 +53,8 @@ def _run_case(case, with_fs=None):
             spec = dict(exchanges=exs, keep_alive=True, ignore_length=False,
                         recorder=ph['rec'])
             plan = dict(cuts=ph.get('cuts', []))
+            if ph.get('pause_between'):
+                spec['pause_between'] = True
             if ph.get('stall_after') is not None:
                 # the server falls silent after that many bytes; the client has a read timeout
                 plan['stall_after'] = ph['stall_after']
